@@ -140,6 +140,34 @@ impl SharedHistory {
 }
 
 
+//--- Verification hooks (compiled only with --cfg routinator_verif)
+
+#[cfg(routinator_verif)]
+impl SharedHistory {
+    /// Puts the history into the state it has after data set `first` at
+    /// serial `old_serial` was followed by the different data set `second`:
+    /// one retained delta built and pushed by the regular code.
+    pub fn verif_init_at(
+        &self, old_serial: Serial,
+        first: PayloadSnapshot, second: PayloadSnapshot,
+    ) -> bool {
+        let mut history = self.write();
+        history.deltas.clear();
+        let res = match PayloadDelta::construct(&first, &second, old_serial) {
+            Some(delta) => { history.push_delta(delta); true }
+            None => false
+        };
+        history.current = Some(second.into());
+        res
+    }
+
+    /// Returns the number of retained deltas.
+    pub fn verif_delta_count(&self) -> usize {
+        self.read().deltas.len()
+    }
+}
+
+
 //--- PayloadSource
 
 impl PayloadSource for SharedHistory {
